@@ -60,11 +60,12 @@ package ice
 //@   props C16
 //@   ensures never-fails: result == nil
 //@   ensures present: attrHas(m, stun.AttrUseCandidate)
+//@   ensures encodes-no-value: !old(attrHas(m, stun.AttrUseCandidate)) ==> attrLen(m, stun.AttrUseCandidate) == 0
 
 //@ func (UseCandidateAttr).IsSet
 //@   props C16
 //@   pure
-//@   ensures result == attrHas(m, stun.AttrUseCandidate)
+//@   ensures set-only-with-the-empty-value-it-is-encoded-with: result == (attrHas(m, stun.AttrUseCandidate) && attrLen(m, stun.AttrUseCandidate) == 0)
 
 //@ func (NominationAttribute).AddToWithType
 //@   props C16 C20
